@@ -559,7 +559,10 @@ class Result:
             "wall_s": round(wall, 2),
             "violations": len(self.violations),
         }
-        with open(os.path.join(EVIDENCE, self.prop + ".json"), "w") as f:
+        # extension checks (behaviour beyond the listed properties, ids X...) keep their evidence apart
+        evdir = EVIDENCE if not self.prop.startswith("X") else os.path.join(EVIDENCE, "ext")
+        os.makedirs(evdir, exist_ok=True)
+        with open(os.path.join(evdir, self.prop + ".json"), "w") as f:
             json.dump(ev, f, indent=1, sort_keys=True)
             f.write("\n")
         for k, v in self.known_hits.items():
